@@ -99,8 +99,27 @@ let rec scheme_of (f : string array) =
        let (kenc, kdec, kivlen) = scheme_of [| ks; kr; f.(2); f.(3); String.concat "~" kp; f.(5) |] in
        (* the data-key AEAD is the Coq definition EnvelopeDek.dek_enc / dek_dec (serialised DEK ->
           parse, key-size check, RAW primitive of the key type), the one the closed envelope theorems are about *)
-       let (kd, dklen) = dek_info dek in
        let aes = fun k b -> obytes "aes_enc" [k; b] in
+       if String.length dek > 4 && String.sub dek 0 4 = "etm:" then begin
+         (* AES-CTR-HMAC data key (model/EnvelopeDekEtm.v): etm:<iv>.<tag>.<hash>.<aes key len>.<hmac key len>;
+            the tape gives the AES key, then the HMAC key, as aesctrhmac.createKey draws them *)
+         match split '.' (String.sub dek 4 (String.length dek - 4)) with
+         | [ivs; tags; hash; al; hl] ->
+           let ivs = int_of_string ivs and tags = int_of_string tags and al = int_of_string al and hl = int_of_string hl in
+           let hname = function 1 -> "sha1" | 2 -> "sha384" | 3 -> "sha256" | 4 -> "sha512" | 5 -> "sha224" | _ -> failwith "hash enum" in
+           let henum = match hash with "sha1" -> 1 | "sha384" -> 2 | "sha256" -> 3 | "sha512" -> 4 | "sha224" -> 5 | _ -> failwith "hash" in
+           let hmacs = fun h k m -> ocall "hmac" [hname (int_of_n h)] [k; m] in
+           let denc = etm_dek_enc aes hmacs (nat_of_int ivs) and ddec = etm_dek_dec aes hmacs (nat_of_int ivs) in
+           let dklen = al + hl in
+           ((fun tape p ad ->
+               let dk = take dklen tape in
+               let kiv = take kivlen (drop dklen tape) and div = drop (dklen + kivlen) tape in
+               let k = { ek_aes = take al dk; ek_hmac = drop al dk; ek_iv = nat_of_int ivs; ek_tag = nat_of_int tags } in
+               env_enc kenc denc (etm_dek_proto byte_tab.(henum) k) kiv div p ad),
+            (fun c ad -> env_dec kdec ddec c ad), dklen + kivlen + ivs)
+         | _ -> failwith "etm dek"
+       end else
+       let (kd, dklen) = dek_info dek in
        let denc = dek_enc aes (o_seal "gcm") (o_seal "chacha") (o_seal "xchacha") kd in
        let ddec = dek_dec aes (o_open "gcm") (o_open "chacha") (o_open "xchacha") kd in
        let divlen = int_of_nat (dek_ivlen kd) in
